@@ -312,6 +312,7 @@ pub fn store_cfg(rng: &mut Rng) -> GenCfg {
     cfg.hostile_ids = rng.chance(1, 2);
     cfg.allow_semicolon = true;
     cfg.max_anns = 12;
+    cfg.keydata_in_complex = rng.chance(1, 3);
     cfg
 }
 
